@@ -155,7 +155,7 @@ def case_imag(ctx):
 
 
 # ----------------------------------------------------------------------------------------- Holstein models
-def holstein(ctx, max_dim=1500):
+def holstein(ctx, max_dim=1500, allow_complex_j=True):
     from renormalizer.model import HolsteinModel, Mol, Phonon
     from renormalizer.utils import Quantity
     rng = ctx.rng
@@ -186,6 +186,12 @@ def holstein(ctx, max_dim=1500):
             continue
         j = rng.uniform(-0.5, 0.5, size=(nmol, nmol))
         j = (j + j.T) / 2
+        if allow_complex_j and nmol >= 2 and rng.random() < 0.3:
+            # complex Hermitian couplings (Peierls phases): the purified states become genuinely complex
+            ph = rng.uniform(-np.pi, np.pi, size=(nmol, nmol))
+            ph = np.triu(ph, 1)
+            j = j * np.exp(1j * (ph - ph.T))
+            ctx.cls("holstein:complex-hermitian-J")
         np.fill_diagonal(j, 0)
         model = HolsteinModel(mols, j, scheme=scheme)
         if degenerate:
